@@ -11,6 +11,8 @@ CONSTANTS Forms,        \* set of form records of the ISA
           AddrMax,      \* largest code address
           UnitBits,     \* 8 (byte machines), 14 (PIC16), 16
           BranchPCs,    \* statement addresses tried for forms with rel / page operands
+          Skipped(_, _, _),  \* (cpu, form, ops): operand combination for which the assembler's choice between two
+                        \* equivalent encodings is a convention outside the instruction set: not generated
           Unjudged(_, _, _), \* (cpu, form, ops): legal by the table, but rejection by an assembler is tolerated
                         \* (documented hardware anomaly); if accepted the units must still be right
           Cpu,          \* CPU variant (string) whose forms are enumerated
@@ -20,7 +22,7 @@ VARIABLES form, ops, pc
 
 FormsOfCpu == {f \in Forms : Cpu \in f.cpus}
 
-HasPc(f) == \E i \in 1..Len(f.flds) : f.flds[i].k \in {"rel", "page"}
+HasPc(f) == \E i \in 1..Len(f.flds) : f.flds[i].k \in {"rel", "page", "relw"}
 
 Interior(lo, hi, n) == lo + ((Salt * 7919 + n * 104729 + 12345) % (hi - lo + 1))
 
@@ -52,6 +54,8 @@ Classes(fld, p) ==
   CASE fld.k = "num"  -> NumClasses(fld)
     [] fld.k = "rel"  -> RelClasses(fld, p)
     [] fld.k = "page" -> PageClasses(fld, p)
+    [] fld.k = "relw" -> {0, 1, p, p + fld.base, p + fld.base - 1, p + fld.base + 1, AddrMax - 1, AddrMax, AddrMax + 1, -1,
+                          -(2^(fld.w - 1)), -(2^(fld.w - 1)) - 1, Interior(0, AddrMax, 1), Interior(0, AddrMax, 2), 4660}
     [] fld.k = "enum" -> 1..Len(fld.names)
 
 Init == /\ form \in FormsOfCpu
@@ -73,16 +77,17 @@ CaseOut == [id |-> form.id, mn |-> form.mn, args |-> RenderArgs(form, ops), pc |
 \* ---- checked at every leaf -----------------------------------------------------------------------
 UnitsTyped == (Leaf /\ V # "reject") => \A u \in 1..Len(Units) : Units[u] \in 0..(2^UnitBits - 1)
 \* the declarative decoder inverts the encoder: fields (PC-relative ones as target addresses) come back
-DecodeInverts == (Leaf /\ V = "units") =>
+DecodeInverts == (Leaf /\ V = "units" /\ DupFree(form)) =>
                     /\ Matches(form, Units, pc, AddrMax)
                     /\ Extract(form, Units, pc) = [i \in 1..Len(ops) |-> Canon(form.flds[i], ops[i])]
 \* an out-of-range operand never has an encoding: Encode = Error
 OutOfRangeIsError == (Leaf /\ Verdict(form, ops, pc, AddrMax) # "units") => Encode(form, ops, pc, AddrMax) = Error
-Dump == Leaf => PrintT(<<"OUT", ToJson(CaseOut)>>)
+Dump == (Leaf /\ ~Skipped(Cpu, form, ops)) => PrintT(<<"OUT", ToJson(CaseOut)>>)
 
 \* ---- checked once on the table --------------------------------------------------------------------
 TableSane == /\ \A f \in Forms : FormWellFormed(f, UnitBits)
              /\ \A f, g \in Forms : f.id = g.id => f = g
-             /\ AmbiguousOpcodes(FormsOfCpu, UnitBits) = {}
-             /\ AliasesHavePrimary(FormsOfCpu)
+             /\ IF UnitBits <= 14 THEN AmbiguousOpcodes(FormsOfCpu, UnitBits) = {}
+                ELSE PairwiseDistinct(FormsOfCpu, UnitBits)
+             /\ AliasesHavePrimary(FormsOfCpu, UnitBits)
 =============================================================================
